@@ -13,7 +13,9 @@ import (
 
 // TestScenario replays, through the full node path, the minimal command/time
 // sequence of each finding of this engine and prints the replies.
-//   TTL_SCENARIO=<name> VERIF_SCRATCH=/dev/shm/x ttlsim.test -test.run TestScenario -test.cpu 1
+//
+//	TTL_SCENARIO=<name> VERIF_SCRATCH=/dev/shm/x ttlsim.test -test.run TestScenario -test.cpu 1
+//
 // names: append setrange del hdel hclear-replay hclear-replay-persist same-ns formats ld-stale ld-shorter ld-mem-deadlock ld-replay
 func TestScenario(t *testing.T) {
 	name := os.Getenv("TTL_SCENARIO")
